@@ -99,6 +99,21 @@ def streams(tier, rng, P, only=None, cases=None):
             a = "%sl8 [%s%s %s%s] g" % (d, sp, call, tail, brk)
             b = "%sl8 %s %s%s %s %s g" % (d, call, tail, brk.replace(" :", ""), call, tail)
             cs.append(dict(req="compile2 %s %s" % (hx(a), hx(b)), src=a, un=b, show=a, jump=True, sexp=None, key="mac%d" % j))
+        # a macro / string variable whose own text contains ':' or brackets, called inside a loop: the ':' belongs to the text of the macro
+        # (where no loop is open), not to the loop around the call
+        for j in range(60 if big else 16):
+            kind = rng.choice(["hash", "str", "var"]); body = rng.choice(["c : d", "c:d", "c : d e", ": c", "c :", "c ] d", "c : [2 d]", "[2 c : d] :"]); tail = rng.choice(["e", "e f", "r", ": e", ""])
+            k = rng.choice([2, 3, 4])
+            if kind == "hash": d, call = "#M={%s} " % body, "#M"
+            elif kind == "str": d, call = "STR SV={%s}; " % body, "SV"
+            else: d, call = "XA={%s} " % body, "XA"
+            a = "%sl8 [%d %s %s] g" % (d, k, call, tail)
+            t2 = tail.replace(": e", "e")
+            parts = [("%s %s" % (call, t2)) for _ in range(k - 1)] + [call if tail.startswith(":") else "%s %s" % (call, tail)]
+            b = "%sl8 %s g" % (d, " ".join(parts))
+            cs.append(dict(req="compile2 %s %s" % (hx(a), hx(b)), src=a, un=b, show=a, jump=True, sexp=None, key="mcolon%d" % j))
+        for j, (a, b) in enumerate([("#A={c} [2 #A #A={d}] e", "#A={c} #A #A={d} #A #A={d} e"), ("#A={c:d} [3 #A e] g", "#A={c:d} #A e #A e #A e g")]):
+            cs.append(dict(req="compile2 %s %s" % (hx(a), hx(b)), src=a, un=b, show=a, jump=True, sexp=None, key="mfix%d" % j))
         for j, (a, b) in enumerate([("[1 c : [2 d] e] f", "c f"), ("[c d]", "c d c d"), ("[3 c : d]", "c d c d c"), ("{[2 c d]}4", "{c d c d}4"), ("Sub{[2 c : >]} e", "Sub{c > c} e")]):
             cs.append(dict(req="compile2 %s %s" % (hx(a), hx(b)), src=a, un=b, show=a, jump=True, sexp=None, key="fixed%d" % j))
         return cs
